@@ -724,6 +724,34 @@ theorem sliceFinish_indep {n m : Nat} {root : Mapping} {v : Value} {st st' : RSt
     (sliceFinish_fuel_mono_le (Nat.le_max_left _ _) _ _ _ h (by simp))
     (sliceFinish_fuel_mono_le (Nat.le_max_right _ _) _ _ _ h' (by simp))
 
+/-! ## Small facts (own copies, so that this file only relies on the fuel-monotonicity part and
+the unfolding equations of `Lemmas/Fuel`) -/
+
+theorem splitColon_noColon {a : Str} (h : ':' ∉ a) : splitColon a = [a] := by
+  induction a with
+  | nil => rfl
+  | cons c cs ih =>
+    have hc : c ≠ ':' := fun e => h (by simp [e])
+    have hcs : ':' ∉ cs := fun m => h (List.mem_cons_of_mem _ m)
+    simp [splitColon, ih hcs, hc]
+
+/-- A path that is a single literal piece renders to itself (fuel ≥ 2). -/
+theorem slice_lit (k : Nat) (root : Mapping) (a : Str) (st : RState) :
+    slice (k+2) root [.lit a] st = .ok a := by
+  simp [slice_cons, tokResolve_lit, strLoop_succ, sliceFinish_succ, slice_nil, rawString,
+    Value.isStr, Value.isMap, Value.isSeq]
+
+theorem mem_of_lookup {k : Key} {v : Value} {es : List (Key × Value)} (h : lookup k es = some v) :
+    (k, v) ∈ es := by
+  induction es with
+  | nil => simp [lookup] at h
+  | cons kv es ih =>
+    obtain ⟨k', v'⟩ := kv
+    simp only [lookup] at h
+    by_cases hk : k' = k
+    · simp only [hk, if_true, Option.some.injEq] at h; simp [hk, h]
+    · simp only [hk, if_false] at h; exact List.mem_cons_of_mem _ (ih h)
+
 /-! ## Pieces of `Token::resolve` -/
 
 /-- A reference path consisting of one literal piece renders to that text. -/
@@ -732,7 +760,7 @@ theorem slice_single_lit_eq {n : Nat} {root : Mapping} {a p : Str} {st : RState}
   match n with
   | 0 => simp [slice] at h
   | 1 => simp [slice_cons, tokResolve] at h
-  | k+2 => rw [slice_single_lit] at h; exact (Except.ok.inj h).symm
+  | k+2 => rw [slice_lit] at h; exact (Except.ok.inj h).symm
 
 /-- The value found by walking a `:`-separated path through *raw* (unmerged, unrendered)
 mappings: `none` as soon as a value on the way is not a plain mapping or lacks the key. -/
@@ -1147,6 +1175,72 @@ theorem flat_erase {v y : Value} {st : RState} (hc : Closed v) (hw : WF v)
   have : y = r := Except.ok.inj (h.symm.trans hr)
   subst this
   exact ⟨he, closed_of_erase_eq he hc, wf_of_erase_eq he hw⟩
+
+/-! ## `rawPath` through erased and through interpolated values -/
+
+theorem rawPath_erase : ∀ (segs : List Str) (v : Value),
+    rawPath (erase v) segs = (rawPath v segs).map erase
+  | [], v => by simp [rawPath]
+  | k :: ks, v => by
+    cases v with
+    | map es ck ok =>
+      simp only [erase, rawPath, lookup_eraseEs]
+      cases hl : lookup (.str k) es with
+      | none => simp
+      | some v' => simp only [Option.map_some]; exact rawPath_erase ks v'
+    | _ => simp [erase, rawPath]
+
+/-- Values equal up to flag sets have the same `rawPath`s up to flag sets. -/
+theorem rawPath_of_erase_eq {a b : Value} (h : erase a = erase b) {segs : List Str} {x : Value}
+    (hx : rawPath b segs = some x) : ∃ y, rawPath a segs = some y ∧ erase y = erase x := by
+  have := rawPath_erase segs a
+  rw [h, rawPath_erase segs b, hx] at this
+  cases hy : rawPath a segs with
+  | none => simp [hy] at this
+  | some y => exact ⟨y, rfl, by simpa [hy] using this.symm⟩
+
+/-- Interpolation commutes with walking a path through raw mappings: if the raw value `v0` has
+the raw value `vt` at `segs`, then the interpolated `v0` has at `segs` — up to flag sets — what
+`vt` interpolates to. -/
+theorem interp_rawPath {root : Mapping} (hr : WF root.toValue) :
+    ∀ (segs : List Str) (n : Nat) (v0 vt x0 : Value) (st s : RState), WF v0 →
+    rawPath v0 segs = some vt → interp n root v0 st = .ok (x0, s) →
+    ∃ xt' xt j st1 s1, rawPath x0 segs = some xt' ∧ interp j root vt st1 = .ok (xt, s1) ∧
+      erase xt' = erase xt
+  | [], n, v0, vt, x0, st, s, _, hraw, h => by
+    simp only [rawPath, Option.some.injEq] at hraw
+    subst hraw
+    exact ⟨x0, x0, n, st, s, by simp [rawPath], h, rfl⟩
+  | k :: ks, n, v0, vt, x0, st, s, hw, hraw, h => by
+    cases v0 with
+    | map es ck ok =>
+      simp only [rawPath] at hraw
+      cases hl : lookup (.str k) es with
+      | none => simp [hl] at hraw
+      | some v1 =>
+        simp only [hl] at hraw
+        simp only [WF] at hw
+        cases n with
+        | zero => simp [interp] at h
+        | succ n =>
+          rw [interp_map] at h
+          cases h1 : interpEs n root es ck ok st {} with
+          | error e => simp [h1] at h
+          | ok m =>
+            simp only [h1, Except.ok.injEq, Prod.mk.injEq] at h
+            obtain ⟨_, E⟩ := interpEs_entries es n {} m hw.1 (by simpa using hw.2) h1
+            obtain ⟨x1, s1, y1, hx1, hy1, hl1⟩ := E _ _ (mem_of_lookup hl)
+            have hv1 : WF v1 := lookup_some_wf hw.1 hl
+            obtain ⟨hc1, hw1⟩ := C07.interp_closed hr hv1 hx1
+            obtain ⟨e1, _, _⟩ := flat_erase hc1 hw1 hy1
+            obtain ⟨xt', xt, j, st1, s1', hp, hi, he⟩ :=
+              interp_rawPath hr ks n v1 vt x1 _ s1 hv1 hraw hx1
+            obtain ⟨yt, hyt, hye⟩ := rawPath_of_erase_eq e1 hp
+            refine ⟨yt, xt, j, st1, s1', ?_, hi, hye.trans he⟩
+            rw [← h.1]
+            simp only [Mapping.toValue, rawPath, hl1]
+            exact hyt
+    | _ => simp [rawPath] at hraw
 
 end Refs
 end Reclass
